@@ -473,7 +473,7 @@ def build_unit(unit_dir, out_path, units_dir=None, canary=None):
     out.append('#![allow(unused_imports, dead_code, unused_variables, unused_mut, unused_macros, unused_assignments, unreachable_code, non_snake_case, unused_parens, unused_braces)]\n')
     out.append('use vstd::prelude::*;\n')
     out.append(rd('outer.rs'))
-    out.append('\nverus! {\n')
+    out.append('\nverus! {\nglobal size_of usize == 8; // usize is 64 bit (stated assumption)\n')
     for inc in spec.get('include', []):
         out.append(open(os.path.join(units_dir, inc)).read())
         out.append('\n')
@@ -485,7 +485,7 @@ def build_unit(unit_dir, out_path, units_dir=None, canary=None):
         if it.get('outer'):
             t, line_no = extract_item(it, contracts, log)
             outer_items.append(t + '\n')
-    k = out.index('\nverus! {\n')
+    k = [n for n, t in enumerate(out) if t.startswith('\nverus! {\n')][0]
     out[k:k] = outer_items
     cur = ''.join(out).count('\n') + 1
     for it in spec.get('item', []):
